@@ -44,6 +44,7 @@ func addSyncIntrinsics() {
 			e.fail(s, "panic", "sync: RUnlock of unlocked RWMutex")
 		}
 		s.ghost[k]++
+		e.postEffectPoint(s)
 		return nil, true
 	}
 	intrinsics["(*sync.RWMutex).TryRLock"] = func(e *Engine, s *State, f *Frame, fn *ssa.Function, args []Value, retIdx int, advance bool) (Value, bool) {
@@ -227,6 +228,7 @@ func mutexUnlock(e *Engine, s *State, f *Frame, fn *ssa.Function, args []Value, 
 		e.fail(s, "panic", "sync: unlock of unlocked mutex")
 	}
 	s.ghost[k] = 0
+	e.postEffectPoint(s)
 	return nil, true
 }
 
@@ -384,7 +386,17 @@ func (e *Engine) schedule(s *State, mustSwitch bool) bool {
 
 // voluntary explores a context switch at a point where the current goroutine could continue.
 // Bounded by the per-path switch budget (verifrt.SchedBound).
-func (e *Engine) voluntary(s *State) {
+func (e *Engine) voluntary(s *State) { e.voluntaryX(s, false) }
+
+// postEffectPoint: a switch point right AFTER a release operation (unlock) took effect: in the explored alternatives the
+// pre-empted goroutine resumes behind the operation (its re-executed instruction is skipped once).
+func (e *Engine) postEffectPoint(s *State) {
+	if s.preemptSync {
+		s.pendingYield = true // taken at the next instruction boundary of this goroutine (see step loop)
+	}
+}
+
+func (e *Engine) voluntaryX(s *State, after bool) {
 	if len(s.gs) < 2 || s.switchesLeft <= 0 {
 		return
 	}
